@@ -537,35 +537,44 @@ def check_heal_to_fixpoint(prog, run, rule_id):
                           "are only re-pointed by the next traversal (the recursion ends when nothing is replaced)", 1)
     rep = prog.get_func(SCHEMA, "Schema._replace_types_and_directives")
     run.looked_at(rep)
-    guards = [x for x in own_nodes(rep.node) if isinstance(x, ast.If)
-              and any(isinstance(y, ast.Call) and isinstance(y.func, ast.Attribute) and y.func.attr == "_invalidate_and_rebuild_caches" for y in ast.walk(x))]
-    if len(guards) != 1:
-        raise AnalysisError("C14.%s: the invalidation guard of _replace_types_and_directives was not found" % rule_id)
-    flags = [x.id for x in ast.walk(guards[0].test) if isinstance(x, ast.Name)]
-    if not flags:
-        raise AnalysisError("C14.%s: the invalidation guard tests no local flag" % rule_id)
-    flag = flags[0]
-    try:
-        _ev, exits = boolx.walk_under(rep.node, lambda t: True if t == flag else None)
-    except ValueError as e:
-        raise AnalysisError("C14.%s: %s" % (rule_id, e))
-    n_ok, bad = 0, None
-    for kind, st, env in exits:
-        if kind == "raise":
-            continue
-        if not any(t == flag and v for t, v in env.get(boolx.TESTS, ())):
-            continue
-        healed = any((isinstance(c.func, ast.Name) and c.func.id == "fix_type_references") or
-                     (isinstance(c.func, ast.Attribute) and c.func.attr == "fix_type_references") for c in env.get(boolx.CALLS, ()))
-        if healed:
-            n_ok += 1
-        elif bad is None:
-            bad = {t: v for t, v in env.get(boolx.TESTS, ()) if t != flag and "is None" not in t and " in " not in t}
-    r.instance("executions with a replacement that heal the references: %d%s" % (n_ok, "" if bad is None else "; one does not"))
-    if not n_ok:
-        raise AnalysisError("C14.%s: no execution with a replacement calls fix_type_references" % rule_id)
-    if bad is not None:
-        run.report(r, "%s:Schema._replace_types_and_directives:healing-gated" % SCHEMA, rep.where(guards[0]),
-                   "an execution on which something was replaced does not call fix_type_references (when %s): the registrations the "
-                   "healing traversal makes are not healed in turn, and references to a rebuilt type keep pointing at the old object"
-                   % (", ".join("%s=%s" % kv for kv in sorted(bad.items())[-3:]) or "some other test fails"))
+    flag = replacement_flag(rep)
+    calls = [n for n in own_nodes(rep.node) if isinstance(n, ast.Call) and ((isinstance(n.func, ast.Name) and n.func.id == "fix_type_references")
+                                                                           or (isinstance(n.func, ast.Attribute) and n.func.attr == "fix_type_references"))]
+    if not calls:
+        run.report(r, "%s:Schema._replace_types_and_directives:never-heals" % SCHEMA, rep.where(), "_replace_types_and_directives never calls fix_type_references")
+        return
+    for call in calls:
+        # the conditions under which the call is reached: enclosing ifs, and the guard clauses that precede it at each level
+        conds = []
+        cur, child = getattr(call, "_parent", None), call
+        while cur is not None and cur is not rep.node:
+            if isinstance(cur, ast.If):
+                conds.append(cur.test)
+            for field in ("body", "orelse"):
+                blk = getattr(cur, field, None)
+                if isinstance(blk, list) and any(child is st for st in blk):
+                    for st in blk[:blk.index(child)]:
+                        if isinstance(st, ast.If) and st.body and isinstance(st.body[-1], (ast.Return, ast.Raise, ast.Continue, ast.Break)) and not st.orelse:
+                            conds.append(st.test)
+            child, cur = cur, getattr(cur, "_parent", None)
+        for st in rep.node.body[:rep.node.body.index(child)] if child in rep.node.body else []:
+            if isinstance(st, ast.If) and st.body and isinstance(st.body[-1], ast.Return) and not st.orelse:
+                conds.append(st.test)
+        other = sorted({" ".join(ast.unparse(x).split()) for c in conds for x in ast.walk(c)
+                        if (isinstance(x, ast.Name) and x.id != flag and x.id not in ("None", "True", "False"))
+                        or (isinstance(x, ast.Attribute) and not isinstance(getattr(x, "_parent", None), ast.Attribute))})
+        r.instance("fix_type_references reached under %s" % ([" ".join(ast.unparse(c).split()) for c in conds] or ["<always>"]))
+        if other:
+            run.report(r, "%s:Schema._replace_types_and_directives:healing-gated" % SCHEMA, rep.where(call),
+                       "fix_type_references is reached only when %s also allows it (besides the replacement flag `%s`): the registrations the "
+                       "healing traversal makes are not healed in turn, and references to a rebuilt type keep pointing at the old object"
+                       % (", ".join(other), flag))
+
+
+def replacement_flag(rep):
+    """the local of _replace_types_and_directives that records that something was replaced: the one assigned `True`"""
+    names = sorted({t.id for n in own_nodes(rep.node) if isinstance(n, ast.Assign) and isinstance(n.value, ast.Constant) and n.value.value is True
+                    for t in n.targets if isinstance(t, ast.Name)})
+    if len(names) != 1:
+        raise AnalysisError("C14: the replacement flag of _replace_types_and_directives was not found (%s)" % names)
+    return names[0]
